@@ -4,7 +4,7 @@ compared bit for bit with the generator's model; M6 contracts check the six read
 the source; M1 pool shim (shuffled schedules) serves the multi-box selections."""
 import os, random, itertools
 import numpy as np
-from .. import common, gen, refparse, workload, pools, contracts
+from .. import common, gen, refparse, workload, pools, contracts, endurance
 
 ID = "C01"
 LEVEL = "exploration"
@@ -19,7 +19,7 @@ RULE = ("cases = generated 2D/3D plotfiles (1-4 levels, bf 1..8 incl. extent-1 b
 ASSUMPTIONS = ["generator writes what AMReX writes (cross-checked by refparse round trip and on "
                "the real assets in the thorough tier)", "numpy fromfile/tobytes are correct",
                "pool shim M1 executes tasks in-process in shuffled order; real pools are C12's"]
-REQUIRED_OBS = {"forms:supported_ok": 100, "forms:unsupported_raise": 5}
+REQUIRED_OBS = {"endurance_calls": 100, "forms:supported_ok": 100, "forms:unsupported_raise": 5}
 OPT_SUBSET = {"quick": 1, "thorough": 2}      # the share of cases also run under python -O: the anchor code validates with assert statements
 TIMEOUT = {"quick": 300, "thorough": 1200}
 
@@ -45,7 +45,8 @@ def cases(tier, seed):
         for a in ("example_plt_2d", "example_plt_3d", "plt1_Y", "plt2_F", "plt_eb_3d"):
             cs.append({"kind": "asset", "asset": a, "sel_seed": seed, "budget": 120})
         cs.append({"kind": "repo_suite", "sel_seed": seed})
-    return cs
+    # M10: the same operation repeated in one process under a low open-file limit (vlib/endurance.py)
+    return list(cs) + [endurance.case("index", tier, seed)]
 
 
 # ---------------------------------------------------------------- selector enumeration
@@ -253,6 +254,8 @@ def setup():
 
 
 def run_case(case, work, rec):
+    if case.get("kind") == "endurance":
+        return endurance.run_case(case, work, rec)
     if case.get("kind") == "repo_suite":
         # the contracts while the repository's own tests run (real assets, real pools)
         from .. import reposuite
